@@ -22,7 +22,7 @@ inductive Dml where
   | ins (t : String) (id v : Int)
   | upd (t : String) (id v : Int)
   | del (t : String) (id : Int)
-  | alt (t : String)            -- ALTER TABLE t ADD COLUMN …: invisible in the (id, v) reading of the table
+  | alt (t : String)            -- ALTER TABLE t ADD COLUMN …: shows as the marker row (-1, 1) in the harness's reading of the table
 deriving Repr, DecidableEq
 
 inductive Op where
@@ -51,7 +51,8 @@ def applyDml (s : DbState) : Dml → DbState
   | .ins t id v => s.map (fun p => if p.1 == t then (p.1, p.2 ++ [(id, v)]) else p)
   | .upd t id v => s.map (fun p => if p.1 == t then (p.1, p.2.map (fun r => if r.1 == id then (id, v) else r)) else p)
   | .del t id => s.map (fun p => if p.1 == t then (p.1, p.2.filter (fun r => r.1 != id)) else p)
-  | .alt _ => s
+  -- the added column is reported by the harness as a marker row (-1, 1) of the (otherwise empty) side table
+  | .alt t => s.map (fun p => if p.1 == t then (p.1, p.2 ++ [((-1 : Int), (1 : Int))]) else p)
 
 def applyDmls (s : DbState) (ds : List Dml) : DbState := ds.foldl applyDml s
 
